@@ -33,7 +33,7 @@ Definition pair_close (m o : float * float) : bool := tol_close (fst m) (fst o) 
 
 Inductive case :=
 | CND (succs : list bool) (stds : list float) (dxs : list Z) (obs : float)
-| CNDJ (succ : bool) (x : Z) (z : float) (obs : Z)
+| CNDJ (succ : bool) (x : Z) (draws : list float) (obs : Z) (n : nat)
 | CBD (succs : list bool) (los his : list Z) (stds : list float) (mus xs : list Z) (obs : float)
 | CBDJ (succ : bool) (lo hi x : Z) (draws : list float) (obs : Z) (n : nat)
 | CBN (los his stds mus xs : list float) (obs : float)
@@ -48,7 +48,9 @@ Inductive case :=
 | CVMFJ (kappa norm : float) (from : float * float) (u1 u2 : float) (obs : float * float)
 | CUB (los his xs : list float) (obs : float)
 | CNB (mus stds xs : list float) (obs : float)
-| CLNB (mus stds xs : list float) (obs : float).
+| CLNB (mus stds xs : list float) (obs : float)
+| CBNG (lo hi x : float) (refused : bool)
+| CBDG (lo hi x : Z) (refused : bool).
 
 Fixpoint zip3 {A B C} (a : list A) (b : list B) (c : list C) : list (A * B * C) :=
   match a, b, c with x :: a', y :: b', z :: c' => (x, y, z) :: zip3 a' b' c' | _, _, _ => [] end.
@@ -68,7 +70,8 @@ Definition check (c : case) : bool :=
   match c with
   | CND succs stds dxs obs =>
       opt_close (osum (map (fun '(s, sd, dx) => fnd_logpmf1 s sd dx) (zip3 succs stds dxs))) obs
-  | CNDJ succ x z obs => Z.eqb (fnd_jump1 succ x z) obs
+  | CNDJ succ x draws obs n =>
+      match @nd_jump float rnd_even floorceil succ x draws with Some (v, k) => Z.eqb v obs && Nat.eqb k n | None => false end
   | CBD succs los his stds mus xs obs =>
       opt_close (osum (map (fun '(s, lo, hi, sd, mu, x) => fbd_logpmf1 s lo hi sd mu x) (zip6 succs los his stds mus xs))) obs
   | CBDJ succ lo hi x draws obs n =>
@@ -92,6 +95,10 @@ Definition check (c : case) : bool :=
   | CUB los his xs obs => opt_close (osum (map (fun '(lo, hi, x) => fubirth_logpdf1 lo hi x) (zip3 los his xs))) obs
   | CNB mus stds xs obs => tol_close (nsum (map (fun '(mu, sd, x) => fnbirth_logpdf1 mu sd x) (zip3 mus stds xs))) obs
   | CLNB mus stds xs obs => opt_close (osum (map (fun '(mu, sd, x) => flnbirth_logpdf1 mu sd x) (zip3 mus stds xs))) obs
+  | CBNG lo hi x refused =>
+      Bool.eqb (match @bn_jump_from float _ lo hi x [x] with Refused => true | _ => false end) refused
+  | CBDG lo hi x refused =>
+      Bool.eqb (match @bd_jump_from float rnd_even floorceil true lo hi x [0] with Refused => true | _ => false end) refused
   end.
 
 Fixpoint failing_from (i : nat) (cs : list case) : list nat :=
